@@ -22,7 +22,7 @@ pub static DEF: PropDef = PropDef {
     level: "fault_enumeration",
     engine: "ingest",
     rule: "random phase: one run = a real Ingester (WAL EveryWrite on the shim disk, object-store catalog, flush_row_count 2..8, flush_interval 1..30 s, WAL segments of ~1..3 entries) with 2..4 writer tasks issuing 3..10 writes of 1..3 rows over two alternating schemas, the flush timer, and a fault profile drawn per run (fault-free / store request failures before+after effect and delays / disk ENOSPC-EIO-short-torn writes / node crashes at any quiescent point or inside a file operation, up to 3 crash-restart rounds incl. crashes during recovery), ended either by graceful shutdown or by crash+restart+shutdown; sweep phase (fault enumeration): for generated workloads, one run per (object-store request index of the fault-free run) x {crash before, crash after, fail before, fail after}; distinct = distinct (variant, grant/fault/crash sequence); non-trivial = completed AND (interleaved OR a fault/crash fired)",
-    quick_runs: 3000,
+    quick_runs: 4000,
     thorough_runs: 60_000,
     run_cap_ms: 30_000,
     scen,
@@ -381,7 +381,7 @@ fn scen(spec: RunSpec) -> ScenFut {
 
 /// Fault-position sweep: for a few generated workloads, every store request x 4 fault kinds.
 fn sweep_phase(co: &mut Coord) {
-    let n_w = if co.tier == "quick" { 3 } else { 40 };
+    let n_w = if co.tier == "quick" { 5 } else { 40 };
     let mut base = Vec::new();
     for i in 0..n_w as u64 {
         base.push(co.spec(2_000_000 + i, "sweep:999999:fail_before"));
